@@ -254,9 +254,16 @@ mod v_iface_neighbor {
     }
 
     // ------------------------------------------------------------------ routes and the reference next hop
-    fn any_route() -> crate::iface::Route {
+    /// a symbolic route.  IPv4: any prefix length 0..=32.  IPv6: the prefix length is the given constant (0 for the
+    /// first, 48 for the second route of the table) - `Ipv6Address::mask` copies `prefix_len / 8` bytes, and a copy of
+    /// symbolic size inside every `contains_addr` is what CBMC lowers worst (3 M program steps, out of memory); all
+    /// prefix lengths 0..=128 are route_longest_prefix's subject (iface_route.rs).
+    fn any_route(_pl6: u8) -> crate::iface::Route {
         let net = any_addr();
+        #[cfg(not(feature = "proto-ipv6"))]
         let pl: u8 = kani::any();
+        #[cfg(feature = "proto-ipv6")]
+        let pl: u8 = _pl6;
         kani::assume(pl <= max_prefix(&net));
         let via = any_unicast();
         // a gateway is a neighbor: ::1 as gateway is a misconfiguration (the solicitation would be sourced from ::1)
@@ -478,8 +485,8 @@ mod v_iface_neighbor {
         let (c, mut m) = cache_with(3, now);
         iface.inner.neighbor_cache = c;
         let n = 2;
-        let r0 = any_route();
-        let r1 = any_route();
+        let r0 = any_route(0);
+        let r1 = any_route(48);
         iface.routes_mut().update(|v| {
             v.push(r0).unwrap();
             v.push(r1).unwrap();
@@ -607,7 +614,7 @@ mod v_iface_neighbor {
         }
     }
 
-    // @harness props=C16 cfg=KI4,KI6 tier=q to=900 mem=8 unwind=KI4:8,KI6:18 opts=nomem covers=6 funcs=InterfaceInner::lookup_hardware_addr;InterfaceInner::route;InterfaceInner::has_neighbor;InterfaceInner::in_same_network;InterfaceInner::dispatch_ethernet;route::Routes::lookup;neighbor::Cache::lookup;neighbor::Cache::limit_rate bounds=Ethernet_interface_192.168.1.1/24_(IPv6:_fe80::1/64_+_2001:db8::1/64);_neighbor_cache_full:_3_entries_with_fixed_keys_(2_on-link_hosts,_1_off-link),_any_hardware_addresses,_any_expiries_(expired_=_absent_for_lookups),_any_silent_until;_2_routes_(any_network,_prefix_length,_unicast_gateway,_expiry;_expired_=_absent);_any_unicast_destination_(all_address_bits_symbolic);_any_instant
+    // @harness props=C16 cfg=KI4,KI6 tier=q to=900 mem=16 unwind=KI4:8,KI6:18 opts=nomem covers=6 funcs=InterfaceInner::lookup_hardware_addr;InterfaceInner::route;InterfaceInner::has_neighbor;InterfaceInner::in_same_network;InterfaceInner::dispatch_ethernet;route::Routes::lookup;neighbor::Cache::lookup;neighbor::Cache::limit_rate bounds=Ethernet_interface_192.168.1.1/24_(IPv6:_fe80::1/64_+_2001:db8::1/64);_neighbor_cache_full:_3_entries_with_fixed_keys_(2_on-link_hosts,_1_off-link),_any_hardware_addresses,_any_expiries_(expired_=_absent_for_lookups),_any_silent_until;_2_routes_(any_network,_any_unicast_gateway,_any_expiry;_expired_=_absent;_prefix_length_any_0..=32_for_IPv4,_fixed_/0_and_/48_for_IPv6);_any_unicast_destination_(all_address_bits_symbolic);_any_instant
     #[kani::proof]
     pub(crate) fn lookup_hw_addr_step() {
         let o = hw_step(true, false);
@@ -784,8 +791,14 @@ mod v_iface_neighbor {
         if kani::any() {
             let b: [u8; 6] = kani::any();
             // Ethernet-only build: MAX_HARDWARE_ADDRESS_LEN = 6; a length != 6 does not parse
-            let l = if kani::any() { 6 } else { any_le(5) };
-            Some(RawHardwareAddress::from_bytes(&b[..l]))
+            // (each case copies a concrete number of bytes)
+            let sel: u8 = kani::any();
+            Some(match sel {
+                0 => RawHardwareAddress::from_bytes(&b[..0]),
+                1 => RawHardwareAddress::from_bytes(&b[..2]),
+                2 => RawHardwareAddress::from_bytes(&b[..5]),
+                _ => RawHardwareAddress::from_bytes(&b[..6]),
+            })
         } else {
             None
         }
@@ -875,13 +888,13 @@ mod v_iface_neighbor {
         }
     }
 
-    // @harness props=C16 cfg=KI6 tier=q to=900 mem=8 unwind=18 opts=nomem covers=6 funcs=InterfaceInner::process_ndisc;RawHardwareAddress::parse;neighbor::Cache::fill;neighbor::Cache::lookup;InterfaceInner::has_solicited_node bounds=Ethernet_interface_fe80::1/64_+_2001:db8::1/64,_SLAAC_off;_symbolic_NdiscRepr_of_every_kind_(NA,_NS,_RS,_RA,_Redirect)_with_any_flags,_any_target,_link-layer_option_absent_or_of_length_0..=6_with_any_bytes;_any_unicast_IPv6_source_(process_ipv6_drops_others),_any_destination;_hop_limit_255_(gate_in_process_icmpv6:_ndisc_hop_limit_gate);_neighbor_cache_of_3_slots_holding_2_entries_(fixed_keys_fe80::2,_2001:db8::77):_sender_known_or_new,_room_left_with_any_hardware_addresses,_expiries,_silent_until
+    // @harness props=C16 cfg=KI6 tier=q to=900 mem=16 unwind=18 opts=nomem covers=6 funcs=InterfaceInner::process_ndisc;RawHardwareAddress::parse;neighbor::Cache::fill;neighbor::Cache::lookup;InterfaceInner::has_solicited_node bounds=Ethernet_interface_fe80::1/64_+_2001:db8::1/64,_SLAAC_off;_symbolic_NdiscRepr_of_every_kind_(NA,_NS,_RS,_RA,_Redirect)_with_any_flags,_any_target,_link-layer_option_absent_or_of_length_0/2/5/6_with_any_bytes;_any_unicast_IPv6_source_(process_ipv6_drops_others),_any_destination;_hop_limit_255_(gate_in_process_icmpv6:_ndisc_hop_limit_gate);_neighbor_cache_of_3_slots_holding_2_entries_(fixed_keys_fe80::2,_2001:db8::77):_sender_known_or_new,_room_left_with_any_hardware_addresses,_expiries,_silent_until
     #[kani::proof]
     pub(crate) fn cache_fill_only_validated_ndisc() {
         ndisc_step(2);
     }
 
-    // @harness props=C16 cfg=KI6 tier=q to=900 mem=8 unwind=18 opts=nomem covers=6 funcs=InterfaceInner::process_ndisc;RawHardwareAddress::parse;neighbor::Cache::fill;neighbor::Cache::lookup;InterfaceInner::has_solicited_node bounds=Ethernet_interface_fe80::1/64_+_2001:db8::1/64,_SLAAC_off;_symbolic_NdiscRepr_of_every_kind_(NA,_NS,_RS,_RA,_Redirect)_with_any_flags,_any_target,_link-layer_option_absent_or_of_length_0..=6_with_any_bytes;_any_unicast_IPv6_source_(process_ipv6_drops_others),_any_destination;_hop_limit_255_(gate_in_process_icmpv6:_ndisc_hop_limit_gate);_neighbor_cache_of_3_slots_holding_3_entries_(fixed_keys_fe80::2,_2001:db8::77,_2001:db9::1):_full,_a_new_sender_evicts_the_oldest_with_any_hardware_addresses,_expiries,_silent_until
+    // @harness props=C16 cfg=KI6 tier=q to=900 mem=16 unwind=18 opts=nomem covers=6 funcs=InterfaceInner::process_ndisc;RawHardwareAddress::parse;neighbor::Cache::fill;neighbor::Cache::lookup;InterfaceInner::has_solicited_node bounds=Ethernet_interface_fe80::1/64_+_2001:db8::1/64,_SLAAC_off;_symbolic_NdiscRepr_of_every_kind_(NA,_NS,_RS,_RA,_Redirect)_with_any_flags,_any_target,_link-layer_option_absent_or_of_length_0/2/5/6_with_any_bytes;_any_unicast_IPv6_source_(process_ipv6_drops_others),_any_destination;_hop_limit_255_(gate_in_process_icmpv6:_ndisc_hop_limit_gate);_neighbor_cache_of_3_slots_holding_3_entries_(fixed_keys_fe80::2,_2001:db8::77,_2001:db9::1):_full,_a_new_sender_evicts_the_oldest_with_any_hardware_addresses,_expiries,_silent_until
     #[kani::proof]
     pub(crate) fn cache_fill_only_validated_ndisc_full() {
         ndisc_step(3);
@@ -889,7 +902,7 @@ mod v_iface_neighbor {
 
     // The off-link gate: NDISC is honoured only with hop limit 255 (RFC 4861 7.1.1/7.1.2), enforced in process_icmpv6.
     // Byte template (RFC 4861 4.4): neighbor advertisement with a target link-layer address option.
-    // @harness props=C16 cfg=KI6 tier=q to=900 mem=8 unwind=18 opts=nomem covers=2 funcs=InterfaceInner::process_icmpv6;Icmpv6Repr::parse;NdiscRepr::parse;InterfaceInner::process_ndisc bounds=32-byte_neighbor_advertisement_template_(flags,_target,_option_type_1_or_2,_link-layer_address_symbolic);_any_hop_limit;_any_unicast_source;_destination_fe80::1;_empty_neighbor_cache;_no_sockets
+    // @harness props=C16 cfg=KI6 tier=q to=900 mem=16 unwind=18 opts=nomem covers=2 funcs=InterfaceInner::process_icmpv6;Icmpv6Repr::parse;NdiscRepr::parse;InterfaceInner::process_ndisc bounds=32-byte_neighbor_advertisement_template_(flags,_target,_option_type_1_or_2,_link-layer_address_symbolic);_any_hop_limit;_any_unicast_source;_destination_fe80::1;_empty_neighbor_cache;_no_sockets
     #[kani::proof]
     pub(crate) fn ndisc_hop_limit_gate() {
         #[cfg(all(feature = "proto-ipv6", not(feature = "proto-ipv4")))]
@@ -904,13 +917,24 @@ mod v_iface_neighbor {
             let mut b = [0u8; 32];
             b[0] = 136;
             b[4] = kani::any::<u8>() & 0xe0;
+            // (written element by element: a memcpy into the template makes its constant bytes - option type and
+            // length - non-constant for CBMC, and the option loop of NdiscRepr::parse is then unrolled 17 times)
             let tgt: [u8; 16] = kani::any();
-            b[8..24].copy_from_slice(&tgt);
+            let mut i = 0;
+            while i < 16 {
+                b[8 + i] = tgt[i];
+                i += 1;
+            }
             let opt_is_target: bool = kani::any();
             b[24] = if opt_is_target { 2 } else { 1 };
             b[25] = 1;
             let mac: [u8; 6] = kani::any();
-            b[26..32].copy_from_slice(&mac);
+            b[26] = mac[0];
+            b[27] = mac[1];
+            b[28] = mac[2];
+            b[29] = mac[3];
+            b[30] = mac[4];
+            b[31] = mac[5];
             let mut storage: [SocketStorage; 1] = [SocketStorage::EMPTY];
             let mut sockets = SocketSet::new(&mut storage[..]);
             let reply = inner.process_icmpv6(&mut sockets, ip_repr, &b[..]);
